@@ -10,6 +10,7 @@
 #include <tuple_a_not_b.hpp>
 #include <array_tuple_intersection.hpp>
 #include <array_tuple_a_not_b.hpp>
+#include <array_tuple_union.hpp>
 #include <tuple_sketch.hpp>
 #include <array_tuple_sketch.hpp>
 #include <hll.hpp>
